@@ -210,7 +210,8 @@ def gen_circuit(rng, tier):
         rng.shuffle(expo)
         d["mexpo"] = expo
         d["api"] = rng.choice(["method", "function"])
-        d["nested"] = rng.random() < 0.25
+        d["nested"] = rng.random() < 0.35
+        d["mode_major"] = rng.random() < 0.6
         return d
 
 
@@ -234,9 +235,11 @@ def run_circuit(d):
         # are made at top level by connect_all on the sub-solver's structure
         with lk.Solver() as inner:
             s0 = netlib.comp_model(comps[0]).expand_mode(list(comps[0]["modes"])).put()
-            for k in range(comps[0]["n"]):
-                for m in comps[0]["modes"]:
-                    lk.Pin(f"p{k}", m).put(s0.pin[f"p{k}_{m}"])
+            pairs = [(k, m) for k in range(comps[0]["n"]) for m in comps[0]["modes"]]
+            if d.get("mode_major"):
+                pairs = [(k, m) for m in comps[0]["modes"] for k in range(comps[0]["n"])]   # pins laid out mode by mode
+            for k, m in pairs:
+                lk.Pin(f"p{k}", m).put(s0.pin[f"p{k}_{m}"])
         with lk.Solver() as sol:
             sts = place_and_wire(range(1, nc), [c for c in d["conns"] if c[0][0] != 0 and c[1][0] != 0])
             sts[0] = inner.put()
@@ -370,7 +373,10 @@ def run_queries(d):
         else:       # a placed sub-solver exposing the pins with their modes
             with lk.Solver() as inner:
                 s0 = base.put()
-                for p in list(base.pin_dic):
+                plist = list(base.pin_dic)
+                if d.get("mode_major"):
+                    plist.sort(key=lambda p: (str(p.mode_name), p.basename))     # pins laid out mode by mode
+                for p in plist:
                     lk.Pin(p.basename, p.mode_name).put(s0.pin[p.name])
             with lk.Solver():
                 st = inner.put()
@@ -398,7 +404,8 @@ class QueryStream(Stream):
             g = netlib.gen_netlist(rng, max_comps=1, max_pins=4)
             nm = rng.choice([0, 1, 2, 3])
             out.append({"comp": g["comps"][0], "modes": rng.sample(MODE_POOL, nm),
-                        "kind": rng.choice(["model", "solved", "structure", "structure", "substructure"])})
+                        "kind": rng.choice(["model", "solved", "structure", "structure", "substructure", "substructure"]),
+                        "mode_major": rng.random() < 0.6})
         return out
 
     def run(self, d):
